@@ -136,7 +136,9 @@ func c05Check(c *caseCtx, g *genReq, d decision) *electreOut {
 		return o
 	}
 	sf := distFn{s.Params.DistA, s.Params.DistB}
+	var hookSigma [][]float64
 	if ids, sigma, ok := hookCredibility(s); ok {
+		hookSigma = sigma
 		// hook (build tag verif): the credibility matrix itself, before any distillation hides a deviation
 		var mgc margins
 		for i := range alts {
@@ -155,6 +157,12 @@ func c05Check(c *caseCtx, g *genReq, d decision) *electreOut {
 		c.count("credibility_matrices_checked", 1)
 	}
 	asc, desc, mg := refElectre(crits, alts, sf)
+	if hookSigma != nil && len(hookSigma) == len(alts) {
+		// distil the implementation's own matrix (it agrees with the definition within 1e-9, see above): comparisons between
+		// its entries are exact, however close they are
+		asc, desc, mg = refElectreOn(hookSigma, sf)
+		c.count("distilled_from_hook_matrix", 1)
+	}
 	if mg.min != 0 && mg.min < 1e-9 {
 		c.fragile()
 		return o
@@ -208,7 +216,18 @@ func c05Gen(c *caseCtx, nb int) *genReq {
 			o.profile = profDyadic
 		}
 	}
-	return genRequest(c.rng, o)
+	g := genRequest(c.rng, o)
+	if c.rng.Intn(12) == 0 {
+		// one criterion weighs 1e-10 of the others and the distillation function is (nearly) zero: credibilities of 1e-10
+		// are small, not zero, and the cut levels walk down to them
+		mp := g.M["methodParameters"].(M)
+		ec := mp["electreCriteria"].(M)
+		ids := sortedKeysM(ec)
+		ec[ids[c.rng.Intn(len(ids))]].(M)["k"] = []float64{1e-10, 3e-9, 1e-12}[c.rng.Intn(3)]
+		mp["electreDistillation"] = []M{{"a": 0.0, "b": 0.0}, {"b": 0.0}}[c.rng.Intn(2)]
+		c.count("tiny_weight_instances", 1)
+	}
+	return g
 }
 
 func c05Random(c *caseCtx) {
